@@ -60,16 +60,17 @@ func (m *Model) ruleDSN(r *Results) {
 				scan(f, ab, m.instrPos(c), depth+1)
 				return
 			}
+			at := c.Block() // the block whose execution implies the option is set
 			blockOf := func() *ssa.BasicBlock {
 				if g == fn {
-					return c.Block()
+					return at
 				}
 				// inside a helper: the call must dominate the helper's returns
 				for _, ret := range returnsOf(g) {
 					if m.isFailureReturn(ret) {
 						continue
 					}
-					if !(c.Block() == ret.Block() || c.Block().Dominates(ret.Block())) {
+					if !(at == ret.Block() || at.Dominates(ret.Block())) {
 						return nil
 					}
 				}
@@ -77,7 +78,36 @@ func (m *Model) ruleDSN(r *Results) {
 			}
 			if f.Signature.Recv() != nil && isNamed(f.Signature.Recv().Type(), "net/url", "Values") && (f.Name() == "Add" || f.Name() == "Set") && len(c.Common().Args) == 3 {
 				k, ok1 := constString(c.Common().Args[1])
-				if !ok1 || !strings.HasPrefix(k, "_") {
+				if !ok1 {
+					// table-driven: query.Add(row.key, row.value) once for every row of a constant table
+					tg, kf, hdr, isTab := m.tableField(c.Common().Args[1])
+					if !isTab || !loopRunsAll(hdr, c.Block()) {
+						return
+					}
+					rows, okRows := m.tableRows(tg)
+					if !okRows {
+						return
+					}
+					vf := -1
+					if tg2, f2, hdr2, ok2 := m.tableField(c.Common().Args[2]); ok2 && tg2 == tg && hdr2 == hdr {
+						vf = f2
+					}
+					at = hdr
+					for _, row := range rows {
+						if !strings.HasPrefix(row[kf], "_") {
+							continue
+						}
+						v := "<dynamic>"
+						if vf >= 0 {
+							v = row[vf]
+						} else if cv, isC := constString(c.Common().Args[2]); isC {
+							v = cv
+						}
+						opts[row[kf]] = append(opts[row[kf]], opt{v, blockOf(), m.instrPos(c)})
+					}
+					return
+				}
+				if !strings.HasPrefix(k, "_") {
 					return
 				}
 				v, ok2 := constString(c.Common().Args[2])
